@@ -62,7 +62,7 @@ BitNot(a) == NumOf(OfTwos(Flip(TwosOf(DecOf(a)))))
 \* ---------------------------------------------------------------- operators
 PrefixOp(op, v) ==
   CASE op = "!!" -> <<"v", Bool(Truthy(v))>>
-    [] op = "!" -> IF v = Null \/ v[1] \in {"bool", "num"} THEN <<"v", Bool(~Truthy(v))>> ELSE <<"u">>
+    [] op = "!" -> IF v = Null \/ v[1] \in {"bool", "num", "nan", "inf"} THEN <<"v", Bool(~Truthy(v))>> ELSE <<"u">>
     [] op = "-" -> IF v[1] = "num" THEN <<"v", NumOf(DNeg(DecOf(v)))>> ELSE <<"u">>
     [] op = "+" -> IF v[1] = "num" THEN <<"v", v>> ELSE <<"u">>
     [] op = "~" -> IF IsSmallInt(v) THEN <<"v", BitNot(v)>> ELSE <<"u">>
